@@ -155,9 +155,21 @@ Definition headers_valid_ok (tw : list N) (out : list buf) : bool :=
    verifies.  The excepted fields include the checksum itself, so clause 3 alone would accept a
    corrupted packet that was coalesced and leaves the kernel with a freshly computed valid checksum
    ("packets that cannot be coalesced are passed through unmodified"). *)
-Definition canonv (p : list N) : list N := (if l4_csum_ok p then 1 else 0) :: canon p.
-Definition csum_kept_ok (inp : list buf) (tw : list N) (out : list buf) : bool :=
-  perm_eqb (map canonv (segments tw out)) (map (fun b => canonv (b_pkt b)) inp).
+(* ... and together with bit 0 of TCP byte 12, which [canon] forgets with the reserved bits next to it
+   but which is a TCP flag (NS, RFC 3540; AE, RFC 9768): "same ... flags".  [ns = false]: without it
+   (only used to name a failure). *)
+Definition nsbit (p : list N) : N :=
+  match l3_parse p with
+  | Some (v6, iph, proto, frag) =>
+      if negb frag && (proto =? 6) && (iph + 20 <=? len p) then byte_at p (iph + 12) mod 2 else 0
+  | None => 0
+  end.
+Definition canonv_gen (ns : bool) (p : list N) : list N :=
+  (if l4_csum_ok p then 1 else 0) :: (if ns then nsbit p else 0) :: canon p.
+Definition canonv : list N -> list N := canonv_gen true.
+Definition csum_kept_gen (ns : bool) (inp : list buf) (tw : list N) (out : list buf) : bool :=
+  perm_eqb (map (canonv_gen ns) (segments tw out)) (map (fun b => canonv_gen ns (b_pkt b)) inp).
+Definition csum_kept_ok := csum_kept_gen true.
 
 (* [holdsb] is the conjunction of the six clauses (Gro.Holds.holdsb_clauses); it is written with the
    kernel's segments computed once and with clause 3 left to clause 6, which implies it, because it is
